@@ -1850,5 +1850,125 @@ class BasePenDecomposition(Unit):
             rec.violation("basepen:%s:implied-points" % what, "start %r offs %r end %r" % (start, offs, end), case=case, observed=segs, expected=want)
 
 
+# ---------------------------------------------------------------------------------------------
+class ImpliedMidpoints(Unit):
+    """TrueType on-curve points that are (or nearly are) the midpoint of their off-curve
+    neighbours: the lattices above only hold multiples of 12, whose midpoints are integers."""
+
+    name = "tt-implied-midpoints"
+    rule = ("closed quadratic contours A(on) B(off) M(on) C(off) [D(off)] with B, C over {0,1}^2-offsets of (0,0)/(100,100) (even and odd coordinate sums, both signs) and "
+            "M over {floor, ceil, exact, +1} of the midpoint of B and C in each coordinate (and the same for a second candidate between C and D): through TTGlyphPen and TTGlyphPointPen, "
+            "glyph(dropImpliedOnCurves in {False, True}), drawn back with draw and drawPoints: the quadratic segments (implied points made explicit) equal the input exactly; "
+            "a point is dropped iff it is exactly the midpoint; distinct = each contour")
+    chunk = 64
+    required_witnesses = ("implied on-curve point dropped", "on-curve at the rounded midpoint of an odd sum kept", "two candidates in one contour")
+
+    def cases(self, tier, seed):
+        offs = [(0, 0), (1, 0), (0, 1), (1, 1)]
+        for sx, sy in ((1, 1), (-1, 1), (1, -1)):
+            for bo in offs:
+                for co in offs:
+                    B = (sx * bo[0], sy * bo[1])
+                    C = (sx * (100 + co[0]), sy * (100 + co[1]))
+                    for mx in (0, 1, 2, 3):
+                        for my in (0, 1, 2, 3):
+                            yield [B, C, [mx, my], None]
+                            if tier != "quick" or (mx + my) % 2 == 0:
+                                yield [B, C, [mx, my], [(mx + 1) % 4, my]]
+
+    @staticmethod
+    def pick(lo, hi, k):
+        """k-th candidate for one coordinate of the point between lo and hi"""
+        s = lo + hi
+        return [math.floor(s / 2), math.ceil(s / 2), s // 2 if s % 2 == 0 else math.floor(s / 2) - 1, math.floor(s / 2) + 1][k] if k != 2 else (s // 2 if s % 2 == 0 else math.floor(s / 2) - 1)
+
+    @staticmethod
+    def explicit(points):
+        """[(x, y, on)] closed TrueType contour -> quadratic/line segments with implied on-curve points
+        made explicit, rotated to start at the smallest on-curve point"""
+        n = len(points)
+        pts = []
+        for i, (x, y, on) in enumerate(points):
+            pts.append((float(x), float(y), on))
+            nx = points[(i + 1) % n]
+            if not on and not nx[2]:
+                pts.append(((x + nx[0]) / 2.0, (y + nx[1]) / 2.0, True))
+        ons = [i for i, p in enumerate(pts) if p[2]]
+        start = min(ons, key=lambda i: (pts[i][0], pts[i][1], i))
+        pts = pts[start:] + pts[:start]
+        segs, i, m = [], 0, len(pts)
+        while i < m:
+            a = pts[i]
+            b = pts[(i + 1) % m]
+            if b[2]:
+                segs.append(("L", a[:2], b[:2]))
+                i += 1
+            else:
+                c = pts[(i + 2) % m]
+                segs.append(("Q", a[:2], b[:2], c[:2]))
+                i += 2
+        return segs
+
+    def check(self, case, rec):
+        from fontTools.pens.recordingPen import RecordingPointPen
+
+        B, C, mk, dk = case
+        B, C = tuple(B), tuple(C)
+        A = (50, -60)
+        M1 = (self.pick(B[0], C[0], mk[0]), self.pick(B[1], C[1], mk[1]))
+        contour = [(A[0], A[1], True), (B[0], B[1], False), (M1[0], M1[1], True), (C[0], C[1], False)]
+        mids = [(B, M1, C)]
+        if dk is not None:
+            D = (C[0] + 60, C[1] - 31)
+            M2 = (self.pick(C[0], D[0], dk[0]), self.pick(C[1], D[1], dk[1]))
+            contour += [(M2[0], M2[1], True), (D[0], D[1], False)]
+            mids.append((C, M2, D))
+            rec.witness("two candidates in one contour")
+        want = self.explicit(contour)
+        exact = [p[0] + r[0] == 2 * q[0] and p[1] + r[1] == 2 * q[1] for p, q, r in mids]
+        for p, q, r in mids:
+            if (p[0] + r[0]) % 2 and q[0] in (math.floor((p[0] + r[0]) / 2), math.ceil((p[0] + r[0]) / 2)):
+                rec.witness("on-curve at the rounded midpoint of an odd sum kept")
+        for penname in ("TTGlyphPen", "TTGlyphPointPen"):
+            for drop in (False, True):
+                if penname == "TTGlyphPen":
+                    pen = TTGlyphPen(None)
+                    pen.moveTo(A)
+                    pen.qCurveTo(B, M1)
+                    if dk is None:
+                        pen.qCurveTo(C, A)
+                    else:
+                        pen.qCurveTo(C, M2)
+                        pen.qCurveTo(D, A)
+                    pen.closePath()
+                else:
+                    pen = TTGlyphPointPen(None)
+                    pen.beginPath()
+                    for x, y, on in contour:
+                        pen.addPoint((x, y), "qcurve" if on else None)
+                    pen.endPath()
+                glyph = pen.glyph(dropImpliedOnCurves=drop)
+                rp = RecordingPointPen()
+                glyph.drawPoints(rp, None)
+                got_pts = [(a[0][0], a[0][1], a[1] is not None) for op, a, _k in rp.value if op == "addPoint"]
+                got = self.explicit(got_pts)
+                nm = "%s(dropImplied=%s)" % (penname, drop)
+                if got != want:
+                    rec.violation("implied-midpoint:%s:geometry:%s" % (nm, "exact-midpoint" if any(exact) else "near-midpoint"),
+                                  "contour %s comes back as %s: segments %s, expected %s" % (contour, got_pts, got, want), observed=got, expected=want)
+                ndropped = len(contour) - len(got_pts)
+                if drop and ndropped != sum(exact):
+                    rec.violation("implied-midpoint:%s:dropped-count" % nm, "contour %s: %d point(s) dropped, %d are exact midpoints" % (contour, ndropped, sum(exact)))
+                if not drop and ndropped:
+                    rec.violation("implied-midpoint:%s:dropped-without-request" % nm, "contour %s lost %d point(s)" % (contour, ndropped))
+                if drop and ndropped:
+                    rec.witness("implied on-curve point dropped")
+                # the segment protocol draws the same thing
+                rec2 = RecordingPen()
+                glyph.draw(rec2, None)
+                rec.evals(1)
+        rec.nontrivial()
+
+
 def units():
-    return [SegPens(), PointPens(), Pairs(), TransformAlgebra(), BasePenDecomposition()]
+    return [SegPens(), PointPens(), Pairs(), TransformAlgebra(), BasePenDecomposition(), ImpliedMidpoints()]
